@@ -435,7 +435,13 @@ def o_c09(kind, case, r):
         bodies = seg_bodies(r, k)
         for cid, cnt in bodies.items():
             if cid in completed:
-                return "call %d was already complete in the cache directory but its function ran again in session %d" % (cid, k + 1)
+                why = "call %d was already complete in the cache directory but its function ran again in session %d" % (cid, k + 1)
+                # D27 (file mode): the key of a call with a Future argument depends on whether the producer is still
+                # registered when the call is converted (FutureItem naming the producer's file) or already finished and
+                # dropped (its value): the same call then has two keys
+                if kind == "file" and case["calls"][cid - 1].get("deps"):
+                    return why + " #D27"
+                return why
         for fn, ds in s["dir"].items():
             m = re.match(r"k(\d+)\.h5out$", fn)
             if m and complete_entry(ds):
